@@ -523,4 +523,167 @@ theorem stage1_spec {num : Number} {s : Nat} {sFp : ExtFloat} {x : ℚ}
 theorem bump_ge (e : Nat) : 4 ≤ bump e ∧ e ≤ bump e ∧ bump e ≤ e + 5 := by
   unfold bump errorHalfscale; split <;> omega
 
+/-- **B3.**  Just before `error_is_accurate`: the significand is normalised, and — unless the error
+    budget saturated (`errors3 ≥ TOO_MANY_ERRORS`) — the true value `x · 10^s · P` lies in
+    `[(mant − d) · 2^e, (mant + errors3 − d) · 2^e]`, `e = exp − bias`, where `d = 2^shift ≤ errors3/4`
+    is the weight of the final normalisation shift. -/
+theorem stage_spec (F : FloatC) {num : Number} {s : Nat} {sFp lFp : ExtFloat} {x P : ℚ}
+    (hw0 : num.mantissa ≠ 0) (hw64 : num.mantissa < 2 ^ 64)
+    (hs1 : 2 ^ 63 ≤ sFp.mant) (hs2 : sFp.mant < 2 ^ 64)
+    (hs3 : val sFp ≤ (10:ℚ) ^ s) (hs4 : (10:ℚ) ^ s < val sFp + (2:ℚ) ^ sFp.exp)
+    (hl1 : 2 ^ 63 ≤ lFp.mant) (hl2 : lFp.mant < 2 ^ 64)
+    (hl3 : val lFp ≤ P) (hl4 : P < val lFp + (2:ℚ) ^ lFp.exp)
+    (hx1 : (num.mantissa : ℚ) ≤ x) (hx2 : x ≤ num.mantissa + 1)
+    (hx3 : num.manyDigits = false → x = num.mantissa) :
+    2 ^ 63 ≤ (stage F num (10 ^ s) sFp lFp).1.mant ∧ (stage F num (10 ^ s) sFp lFp).1.mant < 2 ^ 64 ∧
+    (stage F num (10 ^ s) sFp lFp).1.exp =
+      (stage1 num (10 ^ s) sFp).1.exp + lFp.exp + 64
+        - clz64 (belMul (stage1 num (10 ^ s) sFp).1 lFp).mant + F.exponentBias ∧
+    clz64 (belMul (stage1 num (10 ^ s) sFp).1 lFp).mant ≤ 2 ∧
+    4 ≤ (stage F num (10 ^ s) sFp lFp).2 ∧
+    ((num.manyDigits = true → 10 ^ 18 ≤ num.mantissa) → (stage F num (10 ^ s) sFp lFp).2 ≤ 612) ∧
+    (tooManyErrors ≤ (stage F num (10 ^ s) sFp lFp).2 ∨
+      ∃ d : Nat, 1 ≤ d ∧ 4 * d ≤ (stage F num (10 ^ s) sFp lFp).2 ∧
+        (((stage F num (10 ^ s) sFp lFp).1.mant : ℚ) - d) *
+            (2:ℚ) ^ ((stage F num (10 ^ s) sFp lFp).1.exp - F.exponentBias) ≤ x * (10:ℚ) ^ s * P ∧
+        x * (10:ℚ) ^ s * P ≤
+          (((stage F num (10 ^ s) sFp lFp).1.mant : ℚ) + (stage F num (10 ^ s) sFp lFp).2 - d) *
+            (2:ℚ) ^ ((stage F num (10 ^ s) sFp lFp).1.exp - F.exponentBias)) := by
+  unfold stage
+  dsimp only
+  obtain ⟨p62, p64, pe, psmall, a, b, ha0, ha, hb0, o1, o2, hbud⟩ :=
+    stage1_spec (s := s) hw0 hw64 hs1 hs2 hs3 hs4 hx1 hx2 hx3
+  generalize stage1 num (10 ^ s) sFp = p1 at *
+  obtain ⟨m1, m2⟩ := off_mul (x := p1.1) (y := lFp) p64 hl2 (X := x * (10:ℚ) ^ s) (Y := P)
+    ha0 hb0 o1 o2 hl3 hl4
+  have f61 := belMul_ge (x := p1.1) (y := lFp) (a := 62) (by decide) (by decide) p64 hl2 p62 hl1
+  have f64 := belMul_lt (x := p1.1) (y := lFp) p64 hl2
+  have hsh : clz64 (belMul p1.1 lFp).mant ≤ 2 := clz64_le_of_le (by decide) f61
+  have f0 : (belMul p1.1 lFp).mant ≠ 0 := by
+    have : 0 < 2 ^ (62 - 1) := Nat.two_pow_pos _
+    omega
+  obtain ⟨n1, n2, n3, n4, n5⟩ := belNormalize_spec f0 f64
+  have noff := off_normalize f0 f64 (x * (10:ℚ) ^ s * P)
+  obtain ⟨b4, b5, b6⟩ := bump_ge p1.2
+  have hd4 : 2 ^ clz64 (belMul p1.1 lFp).mant ≤ 2 ^ 2 := Nat.pow_le_pow_right (by decide) hsh
+  have hd1 : 1 ≤ 2 ^ clz64 (belMul p1.1 lFp).mant := Nat.two_pow_pos _
+  have hst2 : (bump p1.2 * 2 ^ (belNormalize (belMul p1.1 lFp)).2) % u64Mod =
+      bump p1.2 * 2 ^ clz64 (belMul p1.1 lFp).mant := by
+    rw [n1]
+    apply Nat.mod_eq_of_lt
+    have := Nat.mul_le_mul (show bump p1.2 ≤ tooManyErrors + 9 by omega) hd4
+    unfold tooManyErrors at this
+    unfold u64Mod
+    omega
+  rw [hst2]
+  generalize hd : 2 ^ clz64 (belMul p1.1 lFp).mant = d at *
+  refine ⟨n4, n5, ?_, hsh, ?_, ?_, ?_⟩
+  · rw [n3, belMul_exp]
+  · have := Nat.mul_le_mul b4 hd1; omega
+  · intro h
+    have h1 := psmall h
+    have := Nat.mul_le_mul (show bump p1.2 ≤ 153 by omega) hd4
+    omega
+  · rcases hbud with h | h
+    · left
+      have := Nat.mul_le_mul (show tooManyErrors ≤ bump p1.2 by omega) hd1
+      omega
+    · right
+      refine ⟨d, hd1, ?_, ?_, ?_⟩
+      · have := Nat.mul_le_mul_right d b4; omega
+      · -- lower bound
+        have e : (belNormalize (belMul p1.1 lFp)).1.exp + F.exponentBias - F.exponentBias =
+            (belNormalize (belMul p1.1 lFp)).1.exp := by ring
+        rw [e]
+        have hp := two_zpow_pos (belNormalize (belMul p1.1 lFp)).1.exp
+        have hdq : ((2:ℚ) ^ clz64 (belMul p1.1 lFp).mant) = (d : ℚ) := by rw [← hd]; push_cast; rfl
+        rw [hdq] at noff
+        have hd1q : (1:ℚ) ≤ d := by exact_mod_cast hd1
+        have lo : -(d:ℚ) ≤ off (belNormalize (belMul p1.1 lFp)).1 (x * (10:ℚ) ^ s * P) := by
+          rw [noff]
+          have := mul_le_mul_of_nonneg_right m1 (show (0:ℚ) ≤ d by linarith)
+          nlinarith
+        unfold off at lo
+        rw [← le_div_iff₀ hp]; linarith
+      · have e : (belNormalize (belMul p1.1 lFp)).1.exp + F.exponentBias - F.exponentBias =
+            (belNormalize (belMul p1.1 lFp)).1.exp := by ring
+        rw [e]
+        have hp := two_zpow_pos (belNormalize (belMul p1.1 lFp)).1.exp
+        have hdq : ((2:ℚ) ^ clz64 (belMul p1.1 lFp).mant) = (d : ℚ) := by rw [← hd]; push_cast; rfl
+        rw [hdq] at noff
+        have hd1q : (1:ℚ) ≤ d := by exact_mod_cast hd1
+        have hi : off (belNormalize (belMul p1.1 lFp)).1 (x * (10:ℚ) ^ s * P) ≤
+            ((bump p1.2 : Nat) : ℚ) * d - d := by
+          rw [noff]
+          have := mul_le_mul_of_nonneg_right m2 (show (0:ℚ) ≤ d by linarith)
+          have := mul_le_mul_of_nonneg_right h (show (0:ℚ) ≤ d by linarith)
+          nlinarith
+        unfold off at hi
+        rw [← div_le_iff₀ hp]; push_cast; linarith
+
+
+/-! ## The model's main path as `finish ∘ stage` -/
+
+theorem stage_leaf (F : FloatC) (num : Number) (sInt : Nat) (sFp lFp : ExtFloat)
+    {fp1 fp3 : ExtFloat} {errors1 shift : Nat}
+    (heq1 : stage1 num sInt sFp = (fp1, errors1))
+    (heq2 : belNormalize (belMul fp1 lFp) = (fp3, shift)) :
+    stage F num sInt sFp lFp =
+      (⟨fp3.mant, fp3.exp + F.exponentBias⟩, (bump errors1 * 2 ^ shift) % u64Mod) := by
+  unfold stage
+  rw [heq1]
+  dsimp only
+  rw [heq2]
+
+theorem bellerophon_main (T : BelTables) (F : FloatC) (num : Number) {sInt : Nat} {sFp lFp : ExtFloat}
+    (h1 : ¬ (num.mantissa = 0 ∨ num.exponent ≤ -4096)) (h2 : ¬ num.exponent ≥ 4096)
+    (h3 : ¬ num.exponent + T.bias < 0)
+    (h4 : ¬ (Int.tdiv (num.exponent + T.bias) T.step).toNat ≥ T.large.length)
+    (hs : T.smallInt[(Int.tmod (num.exponent + T.bias) T.step).toNat]? = some sInt)
+    (hsf : T.getSmall (Int.tmod (num.exponent + T.bias) T.step).toNat = some sFp)
+    (hlf : T.getLarge (Int.tdiv (num.exponent + T.bias) T.step).toNat = some lFp) :
+    bellerophon T F num = some (finish F (stage F num sInt sFp lFp).1 (stage F num sInt sFp lFp).2) := by
+  refine bellerophon.fun_cases_unfolding T F num
+    (fun r => r = some (finish F (stage F num sInt sFp lFp).1 (stage F num sInt sFp lFp).2))
+    ?_ ?_ ?_ ?_ ?_ ?_ ?_ ?_ ?_
+  · intro _ h; exact absurd h h1
+  · intro _ _ h; exact absurd h h2
+  · intro _ _ _ _ h; exact absurd h h3
+  · intro _ _ _ _ _ _ h; exact absurd h h4
+  · dsimp only
+    intro _ _ _ _ sInt' sFp' lFp' e3 e2 e1 fp1 errors1 heq1 fp3 shift heq2 c1
+    rw [hs] at e1; rw [hsf] at e2; rw [hlf] at e3
+    cases e1; cases e2; cases e3
+    rw [stage_leaf F num sInt sFp lFp heq1 heq2]
+    unfold finish bump
+    dsimp only
+    rw [if_pos c1]
+  · dsimp only
+    intro _ _ _ _ sInt' sFp' lFp' e3 e2 e1 fp1 errors1 heq1 fp3 shift heq2 c1 c2
+    rw [hs] at e1; rw [hsf] at e2; rw [hlf] at e3
+    cases e1; cases e2; cases e3
+    rw [stage_leaf F num sInt sFp lFp heq1 heq2]
+    unfold finish bump
+    dsimp only
+    rw [if_neg c1, if_pos c2]
+  · dsimp only
+    intro _ _ _ _ sInt' sFp' lFp' e3 e2 e1 fp1 errors1 heq1 fp3 shift heq2 c1 c2 c3
+    rw [hs] at e1; rw [hsf] at e2; rw [hlf] at e3
+    cases e1; cases e2; cases e3
+    rw [stage_leaf F num sInt sFp lFp heq1 heq2]
+    unfold finish bump
+    dsimp only
+    rw [if_neg c1, if_neg c2, if_pos c3]
+  · dsimp only
+    intro _ _ _ _ sInt' sFp' lFp' e3 e2 e1 fp1 errors1 heq1 fp3 shift heq2 c1 c2 c3
+    rw [hs] at e1; rw [hsf] at e2; rw [hlf] at e3
+    cases e1; cases e2; cases e3
+    rw [stage_leaf F num sInt sFp lFp heq1 heq2]
+    unfold finish bump
+    dsimp only
+    rw [if_neg c1, if_neg c2, if_neg c3]
+  · dsimp only
+    intro _ _ _ _ hn
+    exact absurd hlf (fun h => hn _ _ _ hs hsf h)
+
 end MinLex.Bel
